@@ -251,6 +251,21 @@ class Run:
         out, exc = ops.outcome_of(go)
         return out, exc
 
+    def _numpy_involved(self, op):
+        spec = self.trace['world']
+
+        def has(r):
+            if isinstance(r, dict):
+                if 'nd' in r or r.get('cont') == 'nd' or 'np' in r:
+                    return True
+                if r.get('k') == 'sh':
+                    return has(spec['shared'][r['i']]['recipe'])
+                return any(has(v) for v in r.values())
+            if isinstance(r, list):
+                return any(has(v) for v in r)
+            return False
+        return has(op.get('args', [])) or has(op.get('call', {}))
+
     def judge(self, c, i, op, out, faulted, phase):
         exp = self.expected.get((c, i))
         if exp is None:
@@ -258,6 +273,11 @@ class Run:
         if out[0] == 'exc' and out[1] == 'SimDeadlock':
             self.violations.append(dict(clause='I4', caller=c, op=i, phase=phase, desc=op,
                                         expected=show_outcome(exp), got='deadlock: call never returns'))
+            return
+        if faulted and self._numpy_involved(op):
+            # numpy calls back into kingdon from C (ndarray.__mul__ -> MultiVector.__rmul__, element by element) and
+            # may swallow or transform an exception raised there; C frames are invisible to the placement rule,
+            # so the outcome of a fault-carrying call with ndarray operands is not judged (all other calls are)
             return
         if faulted and out[0] == 'exc' and out[1] != 'SimDeadlock':
             # the call that was hit by an injected fault may fail, with the injected exception or with whatever
